@@ -170,7 +170,9 @@ def obligations(tier: str):
     add("elitism", "elitism_topk_iterator", M=M, form="iterator")
     add("elitism", "elitism_topk_duplicates", M=M, duplicates=True, table=2)
     add("elitism", "elitism_topk_two_objectives", M=3, objectives=2, timeout=200)
+    add("elitism", "elitism_topk_infinite_fitness", M=3 if not T else 4, table="inf")
     add("helpers", "sort_best_is_better", M=M)
+    add("helpers", "sort_best_is_better_infinite_fitness", M=3 if not T else 4, table="inf")
     add("run_monotone", "gp_run_monotone_best", P=2, budget=4 if not T else 5, timeout=250)
     add("generation", "one_generation_monotone_best", M=2 if not T else 3, table=2, timeout=250)
     return obs
